@@ -1,7 +1,7 @@
 (* Finite obligation (exhaustive over all 65536 record types, by evaluation):
    GetAuditMessageType (String t) = t. *)
 From Coq Require Import List NArith Bool.
-Require Import Bytes Tables.
+Require Import Bytes MsgType.
 Import ListNotations.
 Lemma msgtypes_fwd_ok : filter (fun t => negb (msgtype_fwd_okb t)) all_types = [].
 Proof. by_vm. Qed.
